@@ -733,6 +733,10 @@ func drawSnippet(t *rapid.T, name string, e genEnv) []Op {
 			return nil
 		}
 		ops = append(ops, login)
+		if chance(t, "reloginstale", 25) {
+			// away for longer than the limit, then straight to the login form again (same session)
+			ops = append(ops, Op{K: "advance", N: 7}, login) // C09 maps N onto its gap list (index 7: just outside the limit)
+		}
 		if c.HasSetup("totp") {
 			ops = append(ops, Op{K: "totpvalidate", B: b, A: a, Src: "totp", SA: a})
 		}
